@@ -53,6 +53,11 @@ PROTOS = {
     'uint64big': A([2 ** 63 + 5, 9], 'uint64'),
     'float32': A([1.5, -0.25], 'float32'),
     'float64': A([2.5, NAN], 'float64'),
+    'float32nan': A([NAN, 0.5], 'float32'),
+    'float64fine': A([0.1, 1e300], 'float64'),
+    'dateSnat': A(['2020-01-01T10:11:12', 'NaT'], 'datetime64[s]'),
+    'tdMSnat': A([1500, 'NaT'], 'timedelta64[ms]'),
+    'tdSnat': A(['NaT', 2], 'timedelta64[s]'),
     'complex128': A([1 + 2j, 3j], 'complex128'),
     'U1': A(['a', 'b'], '<U1'),
     'U4': A(['abcd', 'wxyz'], '<U4'),
@@ -153,7 +158,7 @@ def verdict(sup, sto):
 KIND_CLASS = {
     'int8': 'int', 'int64': 'int', 'uint8': 'int', 'np.int8': 'int', 'int7': 'int',
     'int64big': 'int64>2**53', 'uint64big': 'uint64>2**53', 'int_big': 'pyint>2**53', 'int_huge': 'pyint>2**64',
-    'float32': 'float', 'float64': 'float', 'float2.5': 'float', 'nan': 'float',
+    'float32': 'float', 'float64': 'float', 'float32nan': 'float', 'float64fine': 'float', 'dateSnat': 'datetime', 'tdMSnat': 'timedelta', 'tdSnat': 'timedelta', 'float2.5': 'float', 'nan': 'float',
     'complex128': 'complex', 'complex': 'complex', 'U1': 'str', 'U4': 'str', 'str_long': 'str', 'S2': 'bytes', 'bytes': 'bytes',
     'dateD': 'datetime', 'dateY': 'datetime', 'date': 'datetime', 'NaT': 'datetime', 'tdD': 'timedelta', 'td': 'timedelta',
     'bool': 'bool', 'True': 'bool', 'object': 'object', 'None': 'none', 'tuple': 'tuple',
@@ -181,7 +186,8 @@ OPS_ELEMENT = ['series.reindex', 'series.shift', 'series.assign.iloc', 'series.a
                'frame.assign.iloc', 'frame.fillna', 'frame.from_records', 'frame.from_dict_records', 'index.append', 'frame.assign.bloc']
 OPS_PAIR = ['series.from_concat', 'frame.from_concat0', 'frame.from_concat1', 'frame.assign.col-array', 'frame.assign.col-series', 'frame.insert_after',
             'frame.values-row', 'frame.iloc-row', 'frame.iter_array1', 'frame.from_items', 'series.from_overlay', 'frame.from_records-rows',
-            'frame.relabel-keep-dtype', 'frame.iter_tuple1']
+            'frame.relabel-keep-dtype', 'frame.iter_tuple1', 'frame.fillna_forward1', 'frame.fillna_backward1', 'frame.assign-rows-frame-into-2d-block',
+            'frame.assign-rows-frame-into-1d-blocks']
 
 
 def cases(tier):
@@ -366,6 +372,27 @@ def run_pair(case, ctx):
                 r = sf.Series.from_overlay((sa, sb))
                 exp = {'x': la[0], 'y': lb[0] if is_missing(la[1]) else la[1], 'z': lb[1]}
                 pairs = [(exp[k], r[k]) for k in ('x', 'y', 'z')]
+            elif opname in ('frame.fillna_forward1', 'frame.fillna_backward1'):
+                # directional fill along axis 1 carries a value of column p into the missing cells of its neighbour q
+                fwd = opname.endswith('forward1')
+                src, dst = (la, lb) if fwd else (lb, la)
+                r = fab.fillna_forward(axis=1) if fwd else fab.fillna_backward(axis=1)
+                rc = columns_of(r)
+                got_dst = list(rc[1] if fwd else rc[0])
+                got_src = list(rc[0] if fwd else rc[1])
+                exp_dst = [(s_ if is_missing(d_) else d_) for s_, d_ in zip(src, dst)]
+                pairs = list(zip(exp_dst, got_dst)) + list(zip(src, got_src))
+            elif opname.startswith('frame.assign-rows-frame-into'):
+                # a Frame value with two differently typed columns assigned into a row subset of two int8 columns
+                tcols = [A([1, 2], 'int8'), A([3, 4], 'int8')]
+                blocks = [np.column_stack(tcols)] if opname.endswith('2d-block') else tcols
+                for b_ in blocks:
+                    b_.flags.writeable = False
+                tgt = sf.Frame(sf.TypeBlocks.from_blocks(blocks), index=('x', 'y'), columns=('p', 'q'), own_data=True)
+                val = sf.Frame.from_items((('p', a[:1]), ('q', b[:1])), index=('y',))
+                r = tgt.assign.loc[['y'], ['p', 'q']](val)
+                rc = columns_of(r)
+                pairs = [(1, rc[0][0]), (la[0], rc[0][1]), (3, rc[1][0]), (lb[0], rc[1][1])]
             elif opname == 'frame.relabel-keep-dtype':
                 r = fab.relabel(columns=('u', 'v')).rename('nn').reindex(index=('y', 'x'))
                 pairs = list(zip(la[::-1], list(columns_of(r)[0]))) + list(zip(lb[::-1], list(columns_of(r)[1])))
